@@ -1,7 +1,7 @@
 """C01 Node tree is a lossless, exactly positioned cover of the source."""
 from vlib.driver import Cond, ord_partition
 from vlib.common import Violation, require, fail
-from vlib.oracles import parse, check_tiling, check_span_tree
+from vlib.oracles import parse, check_tiling, check_span_tree, check_macro_extent
 from vlib.parsefam import get_ctx, skel_pre, skel_fill, SKELETONS_S, SKELETONS_D, BS, hole_variants
 from pylatexenc.latexwalker import LatexWalkerParseError
 
@@ -21,6 +21,8 @@ def body_tile(s, ctxname):
     require(nl is not None, 'strict parse returned None')
     check_tiling(s, nl)
     n = check_span_tree(s, nl, 0, len(s), strict=True)
+    if ctxname != 'D':
+        check_macro_extent(s, nl)
     return n >= 1
 
 
